@@ -93,9 +93,9 @@ def build_args(case, start_local):
     if "state" in c:
         args["state_trigger"] = "pyscript.e0 == 'on' or pyscript.e0 == 'hot'"
         if case.get("n", 0) % 2:
-            # the same condition, but the expression names the entity in three ways (value, .old, attribute) next to a second
-            # entity: the clause is never true, it only adds subscriptions that must all be gone after the call
-            args["state_trigger"] += " or (pyscript.e0.old == 'zzz' and pyscript.e0.noattr == 1 and pyscript.g9 == 'zzz')"
+            # the same condition, but the expression names the entity in three ways (value, .old, attribute) next to four other
+            # entities: the clause is never true, it only adds subscriptions that must all be gone after the call
+            args["state_trigger"] += " or (pyscript.e0.old == 'zzz' and pyscript.e0.noattr == 1 and pyscript.g9 == 'zzz' and pyscript.g8 == 'zzz' and pyscript.g7.a == 1 and pyscript.g6 == 'zzz')"
         if c["state"]["check_now"] != "unset":
             args["state_check_now"] = c["state"]["check_now"]
         if c["state"]["hold"] is not None:
